@@ -236,18 +236,20 @@ class C18(Check):
         cu = cssutils_()
         self.cu = cu
         rng = ctx.sub_rng('c18' + ('/search%d' % getattr(self, 'search_pass', 0) if getattr(ctx, 'search_mode', False) else ''))
-        self.check_pref_defaults(ctx, cu)
-        self.run_corpus(ctx, cu)
-        self.numbers(ctx, cu, rng)
-        self.float_assumption(ctx, rng)
-        self.helpers(ctx, cu, rng)
-        self.hashes(ctx, cu, rng)
-        self.keywords(ctx, cu, rng)
-        self.colorfuncs(ctx, cu, rng)
-        self.too_large(ctx, cu)
-        self.strings(ctx, cu, rng)
-        self.urls(ctx, cu, rng)
-        self.separators(ctx, cu, rng)
+        ctx.phase(self.check_pref_defaults, ctx, cu)
+        ctx.phase(self.run_corpus, ctx, cu)
+        ctx.phase(self.numbers, ctx, cu, rng)
+        ctx.phase(self.float_assumption, ctx, rng)
+        ctx.phase(self.helpers, ctx, cu, rng)
+        ctx.phase(self.hashes, ctx, cu, rng)
+        ctx.phase(self.keywords, ctx, cu, rng)
+        ctx.phase(self.colorfuncs, ctx, cu, rng)
+        ctx.phase(self.too_large, ctx, cu)
+        ctx.phase(self.strings, ctx, cu, rng)
+        ctx.phase(self.urls, ctx, cu, rng)
+        ctx.phase(self.separators, ctx, cu, rng)
+        ctx.phase(self.order_and_separators, ctx, cu, rng)
+        ctx.phase(self.calc_correspondence, ctx, cu, rng)
 
     # -- defaults ----------------------------------------------------------------------------------
     def check_pref_defaults(self, ctx, cu):
@@ -864,6 +866,218 @@ class C18(Check):
                 if got is None or got[1] != seps or got[0] != want_comps:
                     ctx.violate('the components are written in the same order with the same separators (space, comma, slash)',
                                 dict(w0, prefs=repr(ps), written=out), {'read_back': repr(got), 'want': repr((want_comps, seps))})
+
+    # -- T18.5: order and separators under every spacer preference (values incl. calc()) ---------------
+    SPACER_PREFS = ['spacer', 'listItemSpacer', 'propertyNameSpacer', 'paranthesisSpacer', 'selectorCombinatorSpacer',
+                    'lineSeparator', 'indent']
+
+    def spacer_records(self):
+        """(label, function that changes a fresh default Preferences object)"""
+        recs = []
+        for name in self.SPACER_PREFS:
+            recs.append((name + "=''", lambda p, name=name: setattr(p, name, '')))
+        recs.append(("spacer='  '", lambda p: setattr(p, 'spacer', '  ')))
+        recs.append(('all spacers empty', lambda p: [setattr(p, n, '') for n in self.SPACER_PREFS]))
+        recs.append(('useMinified()', lambda p: p.useMinified()))
+        recs.append(("useMinified(), omitLeadingZero=False", lambda p: (p.useMinified(), setattr(p, 'omitLeadingZero', False))))
+        return recs
+
+    def gen_calc_operand(self, rng, depth):
+        r = rng.random()
+        if depth < 2 and r < 0.15:
+            return self.gen_calc(rng, depth + 1)
+        sign = rng.choice(['', '', '', '-', '-', '+'])
+        body = rng.choice(['1', '2', '10', '100', '0', '0.5', '.5', '1.50', '3', '007'])
+        unit = rng.choice(['px', 'em', '%', '', '', 'PX', 'rem', 'deg'])
+        return sign + body + unit
+
+    def gen_calc(self, rng, depth=0):
+        n = rng.randint(1, 4)
+        out = self.gen_calc_operand(rng, depth)
+        for _ in range(n - 1):
+            op = rng.choice('+-*/')
+            if op in '+-':
+                l, r = rng.choice([' ', '  ', '\t']), rng.choice([' ', '  ', '\n'])
+            else:
+                l, r = rng.choice(['', ' ', ' ']), rng.choice(['', ' ', ' '])
+                if l == '' and r != '' or l != '' and r == '':
+                    l = r = ' '
+            out += l + op + r + self.gen_calc_operand(rng, depth)
+        name = rng.choice(['calc', 'calc', 'CALC', 'Calc'])
+        return name + '(' + rng.choice(['', ' ']) + out + rng.choice(['', ' ']) + ')'
+
+    def calc_words(self, calc):
+        """the items of CSSCalc.seq in driver notation (nested calc() in brackets); None if an item is not modelled"""
+        words = []
+        for item in calc.seq:
+            t, v = item.type, item.value
+            if isinstance(v, str):
+                if t == 'FUNCTION':
+                    words.append('F:' + enc(v))
+                elif t == 'S':
+                    words.append('S')
+                elif t == 'CHAR' and v == ')':
+                    words.append('R')
+                elif t == 'CHAR':
+                    words.append('O:' + enc(v))
+                else:
+                    return None
+            elif type(v).__name__ == 'CSSCalc':
+                inner = self.calc_words(v)
+                if inner is None:
+                    return None
+                words += ['['] + inner + [']']
+            elif type(v).__name__ == 'DimensionValue' and v.type in T2 and len(v.seq) == 1:
+                words.append(T2[v.type] + ':' + enc(v.seq[0].value))
+            else:
+                return None
+        return words
+
+    def calc_correspondence(self, ctx, cu, rng):
+        """CSSCalc.cssText vs the model of do_css_CSSCalc / Out.append(alwaysS=True), under spacer preferences"""
+        from cssutils.css import PropertyValue
+        texts = ['calc(100% - 10px)', 'calc(1px - -2px)', 'calc(1px*-2)', 'Calc( 1px + calc(2PX*-3) )', 'calc(+.50em/2 - 0px)',
+                 'calc(1px)', 'calc( 1px + calc( 2px - calc(3px * 4) ) )']
+        texts += [self.gen_calc(rng) for _ in range(ctx.n(1500, 30000))]
+        prefsets = [DEFAULT, MINI, PrefSet(False, True, '', ' '), PrefSet(True, True, ' ', ''), PrefSet(False, False, '  ', ' ')]
+        lines, cases = [], []
+        for t in texts:
+            pv = PropertyValue(t)
+            if not pv.wellformed or pv.length != 1 or type(pv[0]).__name__ != 'CSSCalc':
+                ctx.count('calc:not-one-calc')
+                continue
+            words = self.calc_words(pv[0])
+            if words is None:
+                ctx.count('calc:not-modelled')
+                continue
+            for ps in prefsets:
+                lines.append('calc %s %s' % (ps.proto(), ' '.join(words)))
+                old = ps.apply(cu)
+                try:
+                    cases.append((t, ps, pv[0].cssText))
+                finally:
+                    ps.restore(cu, old)
+        out = ctx.driver(lines) if ctx.model_ok else []
+        for (t, ps, txt), m in zip(cases, out):
+            ctx.case(key=('calc', t, ps.key()), nontrivial=(txt != t), kind='calc:corr',
+                     sample={'calc': t, 'prefs': repr(ps), 'impl': txt})
+            if m != 'OK ' + enc(txt):
+                ctx.disagree('CSSCalc.cssText', {'text': t, 'prefs': repr(ps)}, txt, dec(m[3:]) if m.startswith('OK ') else m)
+
+    def token_signature(self, text):
+        """the non-white-space token sequence of a value text, numbers as exact (value, unit) so that only layout and
+        number spelling are abstracted away; None if the text does not tokenize cleanly"""
+        from cssutils.tokenize2 import Tokenizer
+        sig = []
+        for typ, val, _, _ in Tokenizer().tokenize(text):
+            if typ == 'S':
+                continue
+            if typ in T2:
+                r = read_number(val)
+                if r is None:
+                    return None
+                v = lit_fraction(r[0], r[1], r[2])
+                u = r[3].lower()
+                if v == 0 and u in LEN_UNITS:
+                    u = ''
+                sig.append(('num', v, u))
+            elif typ == 'INVALID':
+                return None
+            elif typ == 'HASH' and len(val) in (4, 7) and all(c in self.HEXD for c in val[1:]):
+                b = val[1:].lower()
+                sig.append((typ, ''.join(c * 2 for c in b) if len(b) == 3 else b))      # a colour: by its channels
+            elif typ in ('FUNCTION', 'IDENT', 'HASH'):
+                sig.append((typ, val.lower()))
+            elif typ == 'STRING':
+                sig.append((typ, self.css_string_denote(val[1:-1])))
+            else:
+                sig.append((typ, val))
+        return sig
+
+    def component_list(self, cu, text):
+        """PropertyValue(text) as a list of (class name, text under the default preferences); None if not well-formed"""
+        from cssutils.css import PropertyValue
+        pv = PropertyValue(text)
+        if not pv.wellformed:
+            return None
+        return [(type(v).__name__, v.cssText) for v in pv]
+
+    def order_and_separators(self, ctx, cu, rng):
+        from cssutils.css import PropertyValue
+        fixed = ['calc(100% - 10px)', 'calc(1px - -2px)', 'calc(1px + -2px)', 'calc(1px*-2)', 'calc(-1px * -2 - -3px)',
+                 'calc(1px + calc(2px - -1px))', 'calc(+1px + +2px)', 'calc(100%/3 - 2*1em - 2*1px)', 'calc(1px - .5px)',
+                 '1px calc(2px + 1px)/3 , x', 'calc(0px + 0.0em)', 'a, b c/d', 'rgb(1,2,3) -1px -2px', '1px -1px',
+                 'foo(1, -2 3)', '"a" , "b"/"c"', '#aabbcc -0.5em,-.5em', 'calc( 1px - 2px ) calc(3px + -4px)']
+        values = list(fixed)
+        for _ in range(ctx.n(1200, 25000)):
+            n = rng.randint(1, 4)
+            parts = []
+            for _ in range(n):
+                r = rng.random()
+                if r < 0.55:
+                    parts.append(self.gen_calc(rng))
+                elif r < 0.65:
+                    parts.append(rng.choice(['-1px', '-.5em', '+2', '-0', '-3%']))
+                else:
+                    parts.append(rng.choice(self.COMPONENTS)[0])
+            src = parts[0]
+            for pt in parts[1:]:
+                sp = rng.choice([' ', ' ', ',', '/'])
+                src += (rng.choice(['', ' ']) + sp + rng.choice(['', ' ']) + pt) if sp != ' ' else rng.choice([' ', '  ']) + pt
+            values.append(src)
+        recs = self.spacer_records()
+        prefs = cu.ser.prefs
+        saved = dict(prefs.__dict__)
+        try:
+            for src in values:
+                prefs.__dict__.clear()
+                prefs.__dict__.update(saved)
+                prefs.useDefaults()
+                pv = PropertyValue(src)
+                w0 = {'call': 'PropertyValue(text).cssText', 'text': src}
+                has_calc = 'calc(' in src.lower()
+                if not pv.wellformed:
+                    ctx.case(key=('t185', src), nontrivial=False, kind='order:malformed')
+                    if src in fixed:
+                        ctx.violate('a well-formed value is accepted', w0, {'wellformed': False})
+                    continue
+                text0 = pv.cssText
+                sig_src = self.token_signature(src)
+                sig0 = self.token_signature(text0)
+                comps0 = self.component_list(cu, text0)
+                ctx.case(key=('t185', src), nontrivial=True, kind='order:%s' % ('calc' if has_calc else 'list'),
+                         sample={'value': src, 'default': text0})
+                if sig0 is None or sig0 != sig_src:
+                    ctx.violate('the written value has the same non-white-space token sequence as the source (numbers as '
+                                'exact values): components, operators and separators in the same order',
+                                dict(w0, prefs='defaults', written=text0), {'source_tokens': repr(sig_src), 'written_tokens': repr(sig0)})
+                    continue
+                if comps0 is None or len(comps0) != pv.length:
+                    ctx.violate('the written value parses back to the same number of components',
+                                dict(w0, prefs='defaults', written=text0), {'reparsed': repr(comps0), 'length': pv.length})
+                    continue
+                for label, change in recs:
+                    prefs.useDefaults()
+                    change(prefs)
+                    try:
+                        out = pv.cssText
+                    finally:
+                        prefs.useDefaults()
+                    w = dict(w0, prefs=label, written=out, default=text0)
+                    sig = self.token_signature(out)
+                    if sig != sig0:
+                        ctx.violate('under every spacer preference the written value tokenizes to the same non-white-space '
+                                    'token sequence as under the defaults (white space that separates tokens is never dropped)',
+                                    w, {'tokens': repr(sig), 'default_tokens': repr(sig0)})
+                        break
+                    comps = self.component_list(cu, out)
+                    if comps != comps0:
+                        ctx.violate('under every spacer preference the written value parses back to the same component list',
+                                    w, {'components': repr(comps), 'default_components': repr(comps0)})
+                        break
+        finally:
+            prefs.__dict__.clear()
+            prefs.__dict__.update(saved)
 
     # -- URLs ----------------------------------------------------------------------------------------
     def render_url_unquoted(self, rng, content):
